@@ -2,6 +2,7 @@ package http
 
 import (
 	"github.com/brutella/hc/hap"
+	"github.com/brutella/hc/verifhook"
 
 	"net"
 )
@@ -12,7 +13,7 @@ func (s *Server) Accept() (con net.Conn, err error) {
 		return
 	}
 
-	hapCon := hap.NewConnection(con, s.context)
+	hapCon := hap.NewConnection(verifhook.WrapConn(con), s.context)
 
 	return hapCon, err
 }
